@@ -450,6 +450,47 @@ func TestC06(t *testing.T) {
 		}
 	}
 
+	// (2c) the bytes handed to the sink belong to the probe until the write returns: while run A's
+	// write is in progress another run of the same process (same variant, its own driver and wire)
+	// builds and sends a probe of its own — A's buffer must not change under the sink's hands
+	// (builders that recycle their serialisation buffers too early hand out bytes they no longer own)
+	for _, v := range []string{"icmp4", "icmp6", "udp4", "udp6", "sack", "tcp", "tcp-paris"} {
+		for i := 0; i < env.Scale(6, 60); i++ {
+			ca, cb := genCfg(rng, v), genCfg(rng, v)
+			ca.Min, ca.Max, cb.Min, cb.Max = 1, 30, 1, 30
+			var clob []string
+			var wroteB int
+			synctest.Test(t, func(t *testing.T) {
+				wa, wb := newMemWire(), newMemWire()
+				da, errA := newDriver(ca, wa)
+				db, errB := newDriver(cb, wb)
+				if errA != nil || errB != nil {
+					t.Fatalf("driver construction failed: %v %v", errA, errB)
+				}
+				next := 1
+				wa.onWrite = func([]byte, netip.AddrPort) {
+					if next <= 30 {
+						_ = db.SendProbe(uint8(next)) // run B sends while A's write is in progress
+						next++
+					}
+				}
+				for ttl := 1; ttl <= 12; ttl++ {
+					_ = da.SendProbe(uint8(ttl))
+				}
+				wa.mu.Lock()
+				clob = append(clob, wa.clobbered...)
+				wa.mu.Unlock()
+				wroteB = wb.writeCount()
+			})
+			rep.Case("reentrant/"+v, fmt.Sprint(ca.oraclePrefix(), cb.oraclePrefix()), true, nil)
+			rep.Hit(fmt.Sprintf("reentrant:%s:b-wrote=%v", v, wroteB > 0))
+			if len(clob) > 0 {
+				rep.Violate(hx.Violation{Kind: "spec", What: "a probe changed while it was being written: another run of the process sent a probe of its own during the write, and the buffer handed to the sink was overwritten (" + clob[0] + ")",
+					Sig: map[string]string{"variant": v, "stream": "reentrant"}, Replay: map[string]any{"variant": v, "run_a": ca.oraclePrefix(), "run_b": cb.oraclePrefix(), "clobbered": clob}})
+			}
+		}
+	}
+
 	// (3) endpoints reported = endpoints on the wire ----------------------------------------------
 	c06Endpoints(t, rep, rng, env)
 
